@@ -378,6 +378,14 @@ func checkService(c ServiceCase) (v ev.Verdict) {
 		if down {
 			faultWindowOps[op.Kind] = true
 		}
+		if op.Fan && (goneSeen || down) {
+			// the requests a fan-out makes are processed when they are
+			// processed; where the harness could not tell when that is
+			// over (no expected count to wait for: the store is down, or
+			// a write of an abandoned request may still land) the message
+			// is an ordinary increment
+			op.Fan = false
+		}
 		goroutines := runtime.NumGoroutine()
 		_, operr := doSOp(ctx, s, op)
 		if op.Fan {
